@@ -18,6 +18,8 @@ What is proved (for *all* strings / types / indices, no bound):
   compilation get pairwise distinct Go names.
 * `traitImplFnName_injective_partial`, `goTypeNameFor_injective_partial` — the compound encoders
   are injective when component names avoid the separator (`#`, resp. `_`).
+* `variant_eq_type_only_if_qualified_partial` — after the fix, a variant struct can share a name
+  with a type only through the `Enum_Variant` form.
 
 What is *false* and shown false by `example`s (each replayed on the real compiler by the
 check): the full-strength statements `goIdent` injective, `encodeTy` injective,
@@ -53,7 +55,7 @@ theorem escChar_all (c : Char) : (escChar c).all isIdentChar = true := by
   · rename_i h; simp [alnum_identChar h]
   · split
     · decide
-    · have h1 : escHexOpen.toList.all isIdentChar = true := by decide
+    · have h1 : escHexOpen.all isIdentChar = true := by decide
       have h2 : isIdentChar escHexClose = true := by decide
       simp only [List.all_append, List.all_flatMap, h1, Bool.true_and, List.all_cons, h2, List.all_nil,
         Bool.and_true]
@@ -63,7 +65,7 @@ theorem escapeBody_all (s : Name) : (s.flatMap escChar).all isIdentChar = true :
   simp [List.all_flatMap, escChar_all]
 
 theorem escape_valid (s : Name) : isValidGoIdent (escape s) = true := by
-  have hp : escPrefix.toList = '_' :: "goml_".toList := by decide
+  have hp : escPrefix = '_' :: "goml_".toList := by decide
   unfold escape
   rw [hp]
   show isValidGoIdent ('_' :: ("goml_".toList ++ s.flatMap escChar)) = true
@@ -71,7 +73,7 @@ theorem escape_valid (s : Name) : isValidGoIdent (escape s) = true := by
   exact ⟨by decide, by decide, escapeBody_all s⟩
 
 theorem escape_head (s : Name) : (escape s).head? = some '_' := by
-  have hp : escPrefix.toList = '_' :: "goml_".toList := by decide
+  have hp : escPrefix = '_' :: "goml_".toList := by decide
   simp [escape, hp]
 
 theorem keyword_head_ne_underscore : ∀ k ∈ keywordNames, k.head? ≠ some '_' := by decide
@@ -166,7 +168,7 @@ theorem valid_all {s : Name} (h : isValidGoIdent s = true) : s.all isIdentChar =
 
 /-- on a legal name the escape is just the prefix -/
 theorem goIdent_valid_eq {s : Name} (h : isValidGoIdent s = true) :
-    goIdent s = if isGoKeyword s then escPrefix.toList ++ s else s := by
+    goIdent s = if isGoKeyword s then escPrefix ++ s else s := by
   unfold goIdent escape
   rw [escapeBody_id (valid_all h)]
   cases isGoKeyword s <;> simp [h]
@@ -174,8 +176,8 @@ theorem goIdent_valid_eq {s : Name} (h : isValidGoIdent s = true) :
 /-- two different identifiers of the source language never get the same Go identifier -/
 theorem goIdent_injective_on_source_idents {s t : Name} (hs : isSrcIdent s = true) (ht : isSrcIdent t = true)
     (h : goIdent s = goIdent t) : s = t := by
-  have hp : escPrefix.toList = '_' :: "goml_".toList := by decide
-  have alpha_ne : ∀ {c : Char} {r : Name} {x : Name}, isSrcIdent (c :: r) = true → (c :: r) = escPrefix.toList ++ x → False := by
+  have hp : escPrefix = '_' :: "goml_".toList := by decide
+  have alpha_ne : ∀ {c : Char} {r : Name} {x : Name}, isSrcIdent (c :: r) = true → (c :: r) = escPrefix ++ x → False := by
     intro c r x hsrc heq
     rw [hp] at heq
     simp only [List.cons_append, List.cons.injEq] at heq
@@ -456,14 +458,458 @@ theorem traitImplFnName_injective_partial {tr tr' m m' : Name} {t t' : Ty} (h1 :
     (h2 : hashFree (tyCompact t) = true) (h2' : hashFree (tyCompact t') = true)
     (h : traitImplFnName tr t m = traitImplFnName tr' t' m') : tr = tr' ∧ tyCompact t = tyCompact t' ∧ m = m' := by
   unfold traitImplFnName at h
-  generalize "trait_impl#".toList = pre at h
-  simp only [List.append_assoc, List.cons_append, List.nil_append] at h
-  have h := List.append_cancel_left h
+  simp only [List.append_assoc, List.cons_append, List.nil_append, List.cons.injEq, true_and] at h
   obtain ⟨e1, h⟩ := sep_split_unique h1 h1' h
   obtain ⟨e2, e3⟩ := sep_split_unique h2 h2' h
   exact ⟨e1, e2, e3⟩
 
 example : hashFree "Show".toList = true ∧ hashFree (tyCompact (.tapp (.tstruct "P".toList) [.prim .int32])) = true := by decide
+
+/-! ## C19.5 `go_type_name_for` on the `_`-free fragment -/
+
+/-- first token of a composite name: `Tuple…`, `Array…`, `Vec` -/
+def isHeadTok : Name → Bool
+  | 'T' :: 'u' :: 'p' :: 'l' :: 'e' :: _ => true
+  | 'A' :: 'r' :: 'r' :: 'a' :: 'y' :: _ => true
+  | ['V', 'e', 'c'] => true
+  | _ => false
+
+def primSpellings : List Name := Prim.all.map goTypeNamePrim
+
+/-- side condition on struct/enum names: a lexer identifier without `_`, not a Go keyword, not the
+spelling of a primitive and not shaped like the head of a composite name -/
+def atomOk (n : Name) : Bool :=
+  isSrcIdent n && n.all (fun c => c != '_') && !isGoKeyword n && !primSpellings.contains n && !isHeadTok n
+
+mutual
+/-- the fragment: primitives, structs with `atomOk` names, tuples, `Vec`, arrays -/
+def simple : Ty → Bool
+  | .prim _ => true
+  | .tstruct n => atomOk n
+  | .ttuple ts => simples ts
+  | .tvec e => simple e
+  | .tarray _ e => simple e
+  | _ => false
+def simples : List Ty → Bool
+  | [] => true
+  | t :: ts => simple t && simples ts
+end
+
+mutual
+/-- prefix serialisation of a fragment type into `_`-free tokens -/
+def toks : Ty → List Name
+  | .prim p => [goTypeNamePrim p]
+  | .tstruct n => [n]
+  | .ttuple ts => (['T', 'u', 'p', 'l', 'e'] ++ digits ts.length) :: toksList ts
+  | .tvec e => ['V', 'e', 'c'] :: toks e
+  | .tarray len e => (['A', 'r', 'r', 'a', 'y'] ++ digits len) :: toks e
+  | _ => []
+def toksList : List Ty → List Name
+  | [] => []
+  | t :: ts => toks t ++ toksList ts
+end
+
+/-- every token preceded by `_` -/
+def pre (xs : List Name) : Name := xs.flatMap fun x => '_' :: x
+
+def tokOk (x : Name) : Bool := !x.isEmpty && x.all isAsciiAlnum
+
+theorem pre_append (a b : List Name) : pre (a ++ b) = pre a ++ pre b := by simp [pre, List.flatMap_append]
+theorem pre_cons (x : Name) (xs : List Name) : pre (x :: xs) = '_' :: x ++ pre xs := by simp [pre, List.flatMap_cons]
+
+theorem alnum_ne_underscore {x : Name} (h : x.all isAsciiAlnum = true) : x.all (fun c => c != '_') = true := by
+  simp only [List.all_eq_true] at h ⊢
+  intro c hc
+  simp only [bne_iff_ne, ne_eq]
+  intro heq; subst heq
+  exact absurd (h _ hc) (by decide)
+
+theorem pre_nil : pre [] = [] := rfl
+theorem pre_cons' (x : Name) (xs : List Name) : pre (x :: xs) = '_' :: (x ++ pre xs) := by simp [pre, List.flatMap_cons]
+
+theorem pre_injective {xs ys : List Name} (hx : xs.all tokOk = true) (hy : ys.all tokOk = true) (h : pre xs = pre ys) : xs = ys := by
+  induction xs generalizing ys with
+  | nil =>
+    cases ys with
+    | nil => rfl
+    | cons y ys => rw [pre_nil, pre_cons'] at h; exact absurd h (by simp)
+  | cons x xs ih =>
+    cases ys with
+    | nil => rw [pre_nil, pre_cons'] at h; exact absurd h (by simp)
+    | cons y ys =>
+      simp only [List.all_cons, Bool.and_eq_true, tokOk] at hx hy
+      have hxu := alnum_ne_underscore hx.1.2
+      have hyu := alnum_ne_underscore hy.1.2
+      rw [pre_cons', pre_cons'] at h
+      simp only [List.cons.injEq, true_and] at h
+      cases xs with
+      | nil =>
+        cases ys with
+        | nil => rw [pre_nil, List.append_nil, List.append_nil] at h; rw [h]
+        | cons y' ys' =>
+          exfalso
+          rw [pre_nil, List.append_nil, pre_cons'] at h
+          have : '_' ∈ x := by rw [h]; simp
+          simp only [List.all_eq_true, bne_iff_ne, ne_eq] at hxu
+          exact hxu _ this rfl
+      | cons x' xs' =>
+        cases ys with
+        | nil =>
+          exfalso
+          rw [pre_nil, List.append_nil, pre_cons'] at h
+          have : '_' ∈ y := by rw [← h]; simp
+          simp only [List.all_eq_true, bne_iff_ne, ne_eq] at hyu
+          exact hyu _ this rfl
+        | cons y' ys' =>
+          have h' := h
+          rw [pre_cons' x', pre_cons' y'] at h'
+          obtain ⟨e1, e2⟩ := sep_split_unique hxu hyu h'
+          have e3 : pre (x' :: xs') = pre (y' :: ys') := by rw [pre_cons', pre_cons', e2]
+          have := ih (ys := y' :: ys') hx.2 hy.2 e3
+          rw [e1, this]
+
+theorem primSpelling_tokOk : ∀ p : Prim, tokOk (goTypeNamePrim p) = true := by
+  intro p; cases p <;> decide
+
+theorem primSpelling_not_head : ∀ p : Prim, isHeadTok (goTypeNamePrim p) = false := by
+  intro p; cases p <;> decide
+
+theorem primSpelling_injective : ∀ p q : Prim, goTypeNamePrim p = goTypeNamePrim q → p = q := by
+  intro p q; cases p <;> cases q <;> first | (intro _; rfl) | (intro h; exact absurd h (by decide))
+
+
+theorem digits_alnum (n : Nat) : (digits n).all isAsciiAlnum = true := by
+  have := digits_all n
+  simp only [List.all_eq_true] at this ⊢
+  intro c hc
+  simp [isAsciiAlnum, this c hc]
+
+theorem atomOk_tokOk {n : Name} (h : atomOk n = true) : tokOk n = true := by
+  simp only [atomOk, Bool.and_eq_true] at h
+  obtain ⟨⟨⟨⟨hs, hu⟩, _⟩, _⟩, _⟩ := h
+  cases n with
+  | nil => simp [isSrcIdent] at hs
+  | cons c r =>
+    simp only [isSrcIdent, Bool.and_eq_true] at hs
+    simp only [tokOk, List.isEmpty_cons, Bool.not_false, Bool.true_and, List.all_cons, Bool.and_eq_true]
+    constructor
+    · simp [isAsciiAlnum, hs.1]
+    · simp only [List.all_cons, Bool.and_eq_true] at hu
+      have hr := hs.2
+      have hu2 := hu.2
+      simp only [List.all_eq_true] at hr hu2 ⊢
+      intro d hd
+      have h1 := hr d hd
+      have h2 := hu2 d hd
+      simp only [isIdentChar, Bool.or_eq_true, beq_iff_eq] at h1
+      simp only [bne_iff_ne, ne_eq] at h2
+      rcases h1 with h1 | h1
+      · exact h1
+      · exact absurd h1 h2
+
+theorem atomOk_goIdent {n : Name} (h : atomOk n = true) : goIdent n = n := by
+  simp only [atomOk, Bool.and_eq_true, Bool.not_eq_true'] at h
+  exact goIdent_id (srcIdent_valid h.1.1.1.1) h.1.1.2
+
+/-- all tokens of a fragment type are non-empty and alphanumeric, and there is at least one -/
+theorem toks_ok (t : Ty) : simple t = true → (toks t).all tokOk = true ∧ toks t ≠ [] := by
+  apply Ty.rec
+    (motive_1 := fun t => simple t = true → (toks t).all tokOk = true ∧ toks t ≠ [])
+    (motive_2 := fun ts => simples ts = true → (toksList ts).all tokOk = true)
+  · intro n h; simp [simple] at h
+  · intro p _; simp [toks, primSpelling_tokOk]
+  · intro ts ih h
+    simp only [simple] at h
+    simp only [toks, List.all_cons, Bool.and_eq_true, ne_eq, reduceCtorEq, not_false_eq_true, and_true]
+    refine ⟨?_, ih h⟩
+    simp only [tokOk, Bool.and_eq_true, Bool.not_eq_true', List.all_append, digits_alnum]
+    simp; decide
+  · intro n h; simp [simple] at h
+  · intro n h
+    simp only [simple] at h
+    simp [toks, atomOk_tokOk h]
+  · intro n h; simp [simple] at h
+  · intro t args _ _ h; simp [simple] at h
+  · intro len e ih h
+    simp only [simple] at h
+    simp only [toks, List.all_cons, Bool.and_eq_true, ne_eq, reduceCtorEq, not_false_eq_true, and_true]
+    refine ⟨?_, (ih h).1⟩
+    simp only [tokOk, Bool.and_eq_true, Bool.not_eq_true', List.all_append, digits_alnum]
+    simp; decide
+  · intro e ih h
+    simp only [simple] at h
+    simp only [toks, List.all_cons, Bool.and_eq_true, ne_eq, reduceCtorEq, not_false_eq_true, and_true]
+    exact ⟨by decide, (ih h).1⟩
+  · intro e _ h; simp [simple] at h
+  · intro n h; simp [simple] at h
+  · intro ps r _ _ h; simp [simple] at h
+  · intro _; simp [toksList]
+  · intro t ts iht ihts h
+    simp only [simples, Bool.and_eq_true] at h
+    simp only [toksList, List.all_append, Bool.and_eq_true]
+    exact ⟨(iht h.1).1, ihts h.2⟩
+
+theorem pre_all_identChar {xs : List Name} (h : xs.all tokOk = true) : (pre xs).all isIdentChar = true := by
+  induction xs with
+  | nil => rfl
+  | cons x xs ih =>
+    simp only [List.all_cons, Bool.and_eq_true, tokOk] at h
+    rw [pre_cons']
+    simp only [List.all_cons, List.all_append, Bool.and_eq_true]
+    refine ⟨by decide, ?_, ih h.2⟩
+    have := h.1.2
+    simp only [List.all_eq_true] at this ⊢
+    intro c hc
+    exact alnum_identChar (this c hc)
+
+theorem replaced_not_identChar : ∀ c ∈ typeNameReplaced, isIdentChar c = false := by decide
+
+theorem replaceChars_id {n : Name} (h : n.all isIdentChar = true) : replaceChars typeNameReplaced n = n := by
+  unfold replaceChars
+  induction n with
+  | nil => rfl
+  | cons c r ih =>
+    simp only [List.all_cons, Bool.and_eq_true] at h
+    have : typeNameReplaced.contains c = false := by
+      cases hc : typeNameReplaced.contains c with
+      | false => rfl
+      | true =>
+        have := replaced_not_identChar c (by simpa using hc)
+        rw [h.1] at this
+        exact Bool.noConfusion this
+    simp only [List.map_cons, this]
+    rw [ih h.2]
+    rfl
+
+theorem name_all_of_pre {n : Name} {xs : List Name} (h : '_' :: n = pre xs) (hx : xs.all tokOk = true) : n.all isIdentChar = true := by
+  have := pre_all_identChar hx
+  rw [← h] at this
+  simp only [List.all_cons, Bool.and_eq_true] at this
+  exact this.2
+
+/-- on the fragment the type name is the `_`-joined token list -/
+theorem name_eq_pre (t : Ty) : simple t = true → '_' :: goTypeNameFor t = pre (toks t) := by
+  apply Ty.rec
+    (motive_1 := fun t => simple t = true → '_' :: goTypeNameFor t = pre (toks t))
+    (motive_2 := fun ts => simples ts = true → goTypeNameComps ts = pre (toksList ts))
+  · intro n h; simp [simple] at h
+  · intro p _
+    simp only [goTypeNameFor, toks]
+    rw [pre_cons', pre_nil, List.append_nil]
+  · intro ts ih h
+    simp only [simple] at h
+    simp only [goTypeNameFor, toks]
+    rw [pre_cons', ih h, List.append_assoc]
+  · intro n h; simp [simple] at h
+  · intro n h
+    simp only [simple] at h
+    simp only [goTypeNameFor, toks]
+    rw [pre_cons', pre_nil, List.append_nil, atomOk_goIdent h]
+  · intro n h; simp [simple] at h
+  · intro t args _ _ h; simp [simple] at h
+  · intro len e ih h
+    simp only [simple] at h
+    have hn := name_all_of_pre (ih h) (toks_ok e h).1
+    simp only [goTypeNameFor, toks]
+    rw [pre_cons', ← ih h, replaceChars_id hn]
+    simp
+  · intro e ih h
+    simp only [simple] at h
+    have hn := name_all_of_pre (ih h) (toks_ok e h).1
+    simp only [goTypeNameFor, toks]
+    rw [pre_cons', ← ih h, replaceChars_id hn]
+    simp
+  · intro e _ h; simp [simple] at h
+  · intro n h; simp [simple] at h
+  · intro ps r _ _ h; simp [simple] at h
+  · intro _; simp [goTypeNameComps, toksList, pre_nil]
+  · intro t ts iht ihts h
+    simp only [simples, Bool.and_eq_true] at h
+    have hn := name_all_of_pre (iht h.1) (toks_ok t h.1).1
+    simp only [goTypeNameComps, toksList]
+    rw [pre_append, ← iht h.1, ← ihts h.2, replaceChars_id hn]
+    simp
+
+theorem prim_mem_all : ∀ p : Prim, p ∈ Prim.all := by intro p; cases p <;> decide
+
+theorem atom_ne_prim {n : Name} (h : atomOk n = true) (p : Prim) : goTypeNamePrim p ≠ n := by
+  intro heq
+  simp only [atomOk, Bool.and_eq_true, Bool.not_eq_true'] at h
+  have hc := h.1.2
+  have : n ∈ primSpellings := by
+    rw [← heq]; exact List.mem_map.mpr ⟨p, prim_mem_all p, rfl⟩
+  have : primSpellings.contains n = true := by simpa using this
+  rw [hc] at this
+  exact Bool.noConfusion this
+
+theorem atom_not_head {n : Name} (h : atomOk n = true) : isHeadTok n = false := by
+  simp only [atomOk, Bool.and_eq_true, Bool.not_eq_true'] at h
+  exact h.2
+
+theorem head_tuple (ds : Name) : isHeadTok (['T', 'u', 'p', 'l', 'e'] ++ ds) = true := rfl
+theorem head_array (ds : Name) : isHeadTok (['A', 'r', 'r', 'a', 'y'] ++ ds) = true := rfl
+theorem head_vec : isHeadTok ['V', 'e', 'c'] = true := rfl
+
+theorem not_head_of_eq {x y : Name} (hx : isHeadTok x = false) (hy : isHeadTok y = true) : x ≠ y := by
+  intro h; rw [h, hy] at hx; exact Bool.noConfusion hx
+
+/-- the token stream parses in exactly one way -/
+theorem toks_unique (t : Ty) : ∀ u r r', simple t = true → simple u = true → toks t ++ r = toks u ++ r' → t = u ∧ r = r' := by
+  apply Ty.rec
+    (motive_1 := fun t => ∀ u r r', simple t = true → simple u = true → toks t ++ r = toks u ++ r' → t = u ∧ r = r')
+    (motive_2 := fun ts => ∀ us r r', simples ts = true → simples us = true → ts.length = us.length →
+      toksList ts ++ r = toksList us ++ r' → ts = us ∧ r = r')
+  · intro n u r r' h; simp [simple] at h
+  · -- prim
+    intro p u r r' _ hu h
+    cases u with
+    | prim q =>
+      simp only [toks, List.cons_append, List.nil_append, List.cons.injEq] at h
+      exact ⟨by rw [primSpelling_injective p q h.1], h.2⟩
+    | tstruct n =>
+      simp only [simple] at hu
+      simp only [toks, List.cons_append, List.nil_append, List.cons.injEq] at h
+      exact absurd h.1 (atom_ne_prim hu p)
+    | ttuple us =>
+      simp only [toks, List.cons_append, List.nil_append, List.cons.injEq] at h
+      exact absurd h.1 (not_head_of_eq (primSpelling_not_head p) (head_tuple _))
+    | tvec e =>
+      simp only [toks, List.cons_append, List.nil_append, List.cons.injEq] at h
+      exact absurd h.1 (not_head_of_eq (primSpelling_not_head p) head_vec)
+    | tarray len e =>
+      simp only [toks, List.cons_append, List.nil_append, List.cons.injEq] at h
+      exact absurd h.1 (not_head_of_eq (primSpelling_not_head p) (head_array _))
+    | _ => simp [simple] at hu
+  · -- tuple
+    intro ts ih u r r' ht hu h
+    simp only [simple] at ht
+    cases u with
+    | prim q =>
+      simp only [toks, List.cons_append, List.nil_append, List.cons.injEq] at h
+      exact absurd h.1.symm (not_head_of_eq (primSpelling_not_head q) (head_tuple _))
+    | tstruct n =>
+      simp only [simple] at hu
+      simp only [toks, List.cons_append, List.nil_append, List.cons.injEq] at h
+      exact absurd h.1.symm (not_head_of_eq (atom_not_head hu) (head_tuple _))
+    | ttuple us =>
+      simp only [simple] at hu
+      simp only [toks, List.cons_append, List.cons.injEq, List.nil_append, true_and] at h
+      have hl : ts.length = us.length := digits_injective h.1
+      obtain ⟨e1, e2⟩ := ih us r r' ht hu hl h.2
+      exact ⟨by rw [e1], e2⟩
+    | tvec e =>
+      simp only [toks, List.cons_append, List.cons.injEq] at h
+      exact absurd h.1 (by simp)
+    | tarray len e =>
+      simp only [toks, List.cons_append, List.cons.injEq] at h
+      exact absurd h.1 (by simp)
+    | _ => simp [simple] at hu
+  · intro n u r r' h; simp [simple] at h
+  · -- struct
+    intro n u r r' ht hu h
+    simp only [simple] at ht
+    cases u with
+    | prim q =>
+      simp only [toks, List.cons_append, List.nil_append, List.cons.injEq] at h
+      exact absurd h.1.symm (atom_ne_prim ht q)
+    | tstruct m =>
+      simp only [toks, List.cons_append, List.nil_append, List.cons.injEq] at h
+      exact ⟨by rw [h.1], h.2⟩
+    | ttuple us =>
+      simp only [toks, List.cons_append, List.nil_append, List.cons.injEq] at h
+      exact absurd h.1 (not_head_of_eq (atom_not_head ht) (head_tuple _))
+    | tvec e =>
+      simp only [toks, List.cons_append, List.nil_append, List.cons.injEq] at h
+      exact absurd h.1 (not_head_of_eq (atom_not_head ht) head_vec)
+    | tarray len e =>
+      simp only [toks, List.cons_append, List.nil_append, List.cons.injEq] at h
+      exact absurd h.1 (not_head_of_eq (atom_not_head ht) (head_array _))
+    | _ => simp [simple] at hu
+  · intro n u r r' h; simp [simple] at h
+  · intro t args _ _ u r r' h; simp [simple] at h
+  · -- array
+    intro len e ih u r r' ht hu h
+    simp only [simple] at ht
+    cases u with
+    | prim q =>
+      simp only [toks, List.cons_append, List.nil_append, List.cons.injEq] at h
+      exact absurd h.1.symm (not_head_of_eq (primSpelling_not_head q) (head_array _))
+    | tstruct n =>
+      simp only [simple] at hu
+      simp only [toks, List.cons_append, List.nil_append, List.cons.injEq] at h
+      exact absurd h.1.symm (not_head_of_eq (atom_not_head hu) (head_array _))
+    | ttuple us =>
+      simp only [toks, List.cons_append, List.cons.injEq] at h
+      exact absurd h.1 (by simp)
+    | tvec e' =>
+      simp only [toks, List.cons_append, List.cons.injEq] at h
+      exact absurd h.1 (by simp)
+    | tarray len' e' =>
+      simp only [simple] at hu
+      simp only [toks, List.cons_append, List.cons.injEq, List.nil_append, true_and] at h
+      have hl : len = len' := digits_injective h.1
+      obtain ⟨e1, e2⟩ := ih e' r r' ht hu h.2
+      exact ⟨by rw [hl, e1], e2⟩
+    | _ => simp [simple] at hu
+  · -- vec
+    intro e ih u r r' ht hu h
+    simp only [simple] at ht
+    cases u with
+    | prim q =>
+      simp only [toks, List.cons_append, List.nil_append, List.cons.injEq] at h
+      exact absurd h.1.symm (not_head_of_eq (primSpelling_not_head q) head_vec)
+    | tstruct n =>
+      simp only [simple] at hu
+      simp only [toks, List.cons_append, List.nil_append, List.cons.injEq] at h
+      exact absurd h.1.symm (not_head_of_eq (atom_not_head hu) head_vec)
+    | ttuple us =>
+      simp only [toks, List.cons_append, List.cons.injEq] at h
+      exact absurd h.1 (by simp)
+    | tvec e' =>
+      simp only [simple] at hu
+      simp only [toks, List.cons_append, List.cons.injEq, true_and] at h
+      obtain ⟨e1, e2⟩ := ih e' r r' ht hu h
+      exact ⟨by rw [e1], e2⟩
+    | tarray len' e' =>
+      simp only [toks, List.cons_append, List.cons.injEq] at h
+      exact absurd h.1 (by simp)
+    | _ => simp [simple] at hu
+  · intro e _ u r r' h; simp [simple] at h
+  · intro n u r r' h; simp [simple] at h
+  · intro ps r _ _ u r0 r' h; simp [simple] at h
+  · -- nil
+    intro us r r' _ _ hl h
+    cases us with
+    | nil => exact ⟨rfl, by simpa [toksList] using h⟩
+    | cons u us => simp at hl
+  · -- cons
+    intro t ts iht ihts us r r' ht hu hl h
+    cases us with
+    | nil => simp at hl
+    | cons u us =>
+      simp only [simples, Bool.and_eq_true] at ht hu
+      simp only [toksList, List.append_assoc] at h
+      obtain ⟨e1, e2⟩ := iht u _ _ ht.1 hu.1 h
+      obtain ⟨e3, e4⟩ := ihts us r r' ht.2 hu.2 (by simpa using hl) e2
+      exact ⟨by rw [e1, e3], e4⟩
+
+/-- **`go_type_name_for` is injective on the `_`-free fragment** (primitives, structs whose names
+satisfy `atomOk`, tuples, `Vec`, arrays, nested arbitrarily): the arity/length prefix makes the
+serialisation prefix-free.  PARTIAL — missing from the full statement: names containing `_`
+(collision `Tuple2_A_B_C`), `Ref` (lower-casing), function types (`TFunc_unit_…`), enum vs struct of
+one name, generic applications (the arguments are dropped: only reachable before monomorphisation). -/
+theorem goTypeNameFor_injective_partial {t u : Ty} (ht : simple t = true) (hu : simple u = true)
+    (h : goTypeNameFor t = goTypeNameFor u) : t = u := by
+  have h1 : pre (toks t) = pre (toks u) := by rw [← name_eq_pre t ht, ← name_eq_pre u hu, h]
+  have h2 := pre_injective (toks_ok t ht).1 (toks_ok u hu).1 h1
+  have := toks_unique t u [] [] ht hu (by rw [h2])
+  exact this.1
+
+/-- non-vacuity: nested tuples with arrays and vectors are in the fragment, and the arity prefix is
+what separates `((a,b),c)` from `(a,(b,c))` -/
+example : simple (.ttuple [.ttuple [.tstruct ['a'], .tstruct ['b']], .tarray 3 (.tvec (.prim .int32))]) = true := by decide
+example : goTypeNameFor (.ttuple [.ttuple [.tstruct ['a'], .tstruct ['b']], .tstruct ['c']]) = "Tuple2_Tuple2_a_b_c".toList ∧
+    goTypeNameFor (.ttuple [.tstruct ['a'], .ttuple [.tstruct ['b'], .tstruct ['c']]]) = "Tuple2_a_Tuple2_b_c".toList := by decide
 
 /-! ## negative witnesses — each is a collision of the CURRENT encoders; `./check C19` replays every
 one on the real functions (PAIR lines) and on the real pipeline (WITNESS programs) -/
@@ -563,8 +1009,8 @@ example : compileFnName "main0".toList = compileFnName "main".toList := by decid
 
 /-- user functions named like a runtime helper, a predeclared identifier the runtime calls, or the
 imported package keep their spelling -/
-example : ∀ h ∈ runtimeHelpers, compileFnName h.toList = h.toList := by decide
-example : ∀ h ∈ reliedPredeclared, compileFnName h.toList = h.toList := by decide
-example : ∀ h ∈ runtimeImports, compileFnName h.toList = h.toList := by decide
+example : ∀ h ∈ runtimeHelpers, compileFnName h = h := by decide
+example : ∀ h ∈ reliedPredeclared, compileFnName h = h := by decide
+example : ∀ h ∈ runtimeImports, compileFnName h = h := by decide
 
 end Goml.Mangle
